@@ -154,12 +154,18 @@ func (s *server) dbStore() (err error) {
 	// "null" into the database file if leases are empty.
 	leases := []*dbLease{}
 
-	for _, l := range s.srv4.getLeasesRef() {
+	// The DHCPv4 and the DHCPv6 servers request the store independently of
+	// each other and from several goroutines each.  Make sure that the file
+	// written last is made from the leases read last.
+	s.dbStoreMu.Lock()
+	defer s.dbStoreMu.Unlock()
+
+	for _, l := range s.srv4.cloneLeases() {
 		leases = append(leases, fromLease(l))
 	}
 
 	if s.srv6 != nil {
-		for _, l := range s.srv6.getLeasesRef() {
+		for _, l := range s.srv6.cloneLeases() {
 			leases = append(leases, fromLease(l))
 		}
 	}
